@@ -49,6 +49,8 @@ var urlClasses = []string{
 	"https://example.com/story/view?pg=2&pg=3&tag=web",
 	"https://example.com/zqt/12/p/1",
 	"https://example.com/caf%C3%A9/old%20town/story%2Fview/2",
+	"https://example.com/y/x/y/x/abc.html",
+	"https://example.com/story/view/2/2/",
 }
 
 type callStep struct {
